@@ -76,4 +76,18 @@ theorem progress (c : Cfg) (s : State) (hi : Inv c s) (hnf : s.seen = false) : (
     | cons x rest => exact en .cRecv (by simp [step, np, hnf, hob])
     | nil => exact en .cRecv (by simp [step, np, hnf, hob, hoc])
 
+def pcWeight : Pc → Nat
+  | .recv => 2 | .send _ => 4 | .closing => 1 | .done => 0
+
+/-- every step strictly decreases this measure -/
+def measure (s : State) : Nat :=
+  6 * s.pend.length + 5 * s.inp.buf.length + pcWeight s.pc + s.out.buf.length +
+  (if s.inp.closed then 0 else 1) + (if s.seen then 0 else 1) + (if s.panicked then 0 else 1)
+
+theorem measure_decreases (c : Cfg) (s s' : State) (l : Label)
+    (hs : step c s l = some s') : measure s' < measure s := by
+  cases l <;> simp only [step] at hs <;> (repeat' split at hs) <;> (try cases hs) <;>
+    simp_all [measure, pcWeight] <;> omega
+
+
 end Goderive.K.FmapChan
